@@ -37,9 +37,11 @@ EXC = {
 
 def engines():
     if "engines" not in _st:
-        from lsst.daf.relation import iteration
+        # iteration engines that also evaluate the user-defined operations of RA_Ops!Cust
+        # (public extension point apply_custom_unary_operation; otherwise plain iteration.Engine)
+        from .custom_ops import CustomIterationEngine
 
-        _st["engines"] = {"it1": iteration.Engine(name="it1"), "it2": iteration.Engine(name="it2")}
+        _st["engines"] = {"it1": CustomIterationEngine(name="it1"), "it2": CustomIterationEngine(name="it2")}
     return _st["engines"]
 
 
@@ -136,6 +138,8 @@ class World:
                 return rel.sorted(build.sort_terms(o["terms"]))
             if k == "slice":
                 return rel[o["a"] : (None if o["b"] == -1 else o["b"])]
+            if k == "cust":
+                return build.unary_op(o).apply(rel)
             raise MachineryError(f"unknown op {o}")
         if f == "getitem":
             return rel[c["a"] : (None if c["b"] == -1 else c["b"]) : c["step"]]
@@ -512,8 +516,8 @@ def judge_trees(events, part: Part, family: str, clause_props=CLAUSE_PROPS):
 
 
 CONFIGS = {
-    "quick": [("IterQuick.cfg", 5), ("IterZeroQ.cfg", 2), ("IterAV.cfg", 2)],
-    "thorough": [("IterQuick.cfg", 1), ("IterZero.cfg", 1), ("IterAV.cfg", 1), ("IterDeep.cfg", 4), ("IterAll.cfg", 8)],
+    "quick": [("IterQuick.cfg", 5), ("IterZeroQ.cfg", 2), ("IterAV.cfg", 2), ("IterCustom.cfg", 5)],
+    "thorough": [("IterQuick.cfg", 1), ("IterZero.cfg", 1), ("IterAV.cfg", 1), ("IterCustom.cfg", 1), ("IterDeep.cfg", 4), ("IterAll.cfg", 8)],
 }
 
 
